@@ -40,3 +40,7 @@ run H19_keypair_shift paranoid_crypto/lib/keypair_generator.py 's=s.replace("   
 run H20_map_loop_var paranoid_crypto/lib/ecdsa_sig_checks.py 's=s.replace("  for i, sig in enumerate(sigs):\n    pks[ec_util.PublicPoint(sig.issuer_key_info)].append(i)","  for i, signature in enumerate(sigs):\n    pks[ec_util.PublicPoint(signature.issuer_key_info)].append(i)")' C02 C17
 run H21_extended_dl_temp paranoid_crypto/lib/ec_util.py 's=s.replace("        res[k % num_points] = int(dlog * multipliers[k // num_points])\n","        mult = multipliers[k // num_points]\n        res[k % num_points] = int(dlog * mult)\n")' C02 C10
 run H22_keypair_check_temp paranoid_crypto/lib/rsa_single_checks.py 's=s.replace("        p, q = keypair_generator.Generator(seed).generate_key(n.bit_length())\n","        gen = keypair_generator.Generator(seed)\n        p, q = gen.generate_key(n.bit_length())\n")' C01 C18
+run H23_memoise_int_function paranoid_crypto/lib/util.py 's=s.replace("import ast\n","import ast\nimport functools\n",1).replace("def Bytes2Int(","@functools.lru_cache(maxsize=1024)\ndef Bytes2Int(",1)' C01 C16
+run H24_pollard_check_unpack paranoid_crypto/lib/rsa_single_checks.py 's=s.replace("      weak, factors = rsa_util.Pollardpm1(n, self._m)\n","      verdict = rsa_util.Pollardpm1(n, self._m)\n      weak, factors = verdict\n")' C05
+run H25_fermat_init_order paranoid_crypto/lib/rsa_single_checks.py 's=s.replace("    super().__init__(paranoid_pb2.SeverityType.SEVERITY_CRITICAL)\n    self._max_steps = max_steps\n","    self._max_steps = max_steps\n    super().__init__(paranoid_pb2.SeverityType.SEVERITY_CRITICAL)\n")' C04
+run H26_exponents_fstring_small paranoid_crypto/lib/rsa_single_checks.py 's=s.replace("            \"Exponent check failed! Exponent: %d\\n%s\", e, key.rsa_info\n","            f\"Exponent check failed! Exponent bits: {e.bit_length() % 100000}\\n%s\", key.rsa_info\n")' C18
